@@ -295,6 +295,8 @@ class Model(object):
 
     def ext_adjust(self, path, amount, flow):
         n = self.node(path)
+        if amount == 0:
+            return  # (Backtest always books its initial capital, also when it is zero: not a movement)
         n.cash += amount
         n.activity_today += 1
         if n.first_activity_t is None:
